@@ -148,6 +148,13 @@ class HTTP(BaseComponent):
         headers = res.headers
         sock = req.sock
 
+        if res.status < 200 or res.status in (204, 304):
+            # these responses never carry a message body (RFC 7230 3.3.3)
+            if hasattr(res.body, 'close'):
+                res.body.close()
+            res.body = None
+            res.stream = False
+
         # send HTTP response status line and headers
         res.prepare()
         self.fire(write(sock, b'%s%s' % (bytes(res), bytes(headers))))
